@@ -194,7 +194,7 @@ func main() {
 	w.deadAddr = d.Addr().String()
 	d.Close()
 
-	direct := startChild(run, w, "direct", "--mitm", "--mitm-domains", `faulttls\.test,plainonhttps\.test,wrongcert\.test`)
+	direct := startChild(run, w, "direct", "--mitm", "--mitm-domains", `faulttls\.test,plainonhttps\.test,wrongcert\.test`, "--credentials", "siteuser:sitepw@site.test:80")
 	viaUp := startChild(run, w, "upstream", "--proxy", "http://"+w.up.Addr, "--mitm", "--mitm-domains", `.*\.mitm\.test`)
 	tlsL := startChild(run, w, "tls-listener", "--protocol", "https")
 	if direct == nil || viaUp == nil || tlsL == nil {
